@@ -259,7 +259,7 @@ def job_coarse(groups, max_bound, label, budget=None, shard=None):
                              {'kind': 'coarse', 'threads': [list(t) for t in g], 'choices': list(x.choices),
                               'texts': [POOL[i] for i, d in g]},
                              'first run %r, replay %r, alone %r' % (x.res, r2.res, base), size=len(x.choices))
-                    return
+                    raise _Stop()        # whatever was carried over also taints the schedules that follow
                 res.fail('interference threads=%d statements=%s' % (len(g), '|'.join(sorted(set(str(i) for i, d in g)))),
                          {'kind': 'coarse', 'threads': [list(t) for t in g], 'choices': list(x.choices),
                           'texts': [POOL[i] for i, d in g]},
@@ -277,7 +277,7 @@ def job_coarse(groups, max_bound, label, budget=None, shard=None):
             n, capped = sched.explore(bodies, bound, check, max_schedules=400000, shard=shard)
         except _Stop:
             n, capped = stats['n'], False
-            res.caps.append('coarse group %r stopped after 25 violating schedules (%d explored)' % (g, n))
+            res.caps.append('coarse group %r stopped at a decided verdict (%d violating schedules, %d explored)' % (g, stats['bad'], n))
         if shared_digest() != d0:
             res.fail('shared state changed by evaluation statements=%s' % '|'.join(sorted(set(str(i) for i, d in g))),
                      {'kind': 'coarse', 'threads': [list(t) for t in g], 'choices': [],
